@@ -460,6 +460,7 @@ MonStep(Hh, B, T, e) ==
              \cup (IF e.i \notin SeqToSet(Hh.final) THEN {V("C09", "attempted_is_final", "vehicle", e.v)} ELSE {})
         ELSE {})
   \cup (IF Has("C09") /\ e.ev = "stacks" THEN C09_Stacks(Hh, e) ELSE {})
+  \cup (IF Has("C07") /\ e.ev \in {"instr", "update"} THEN C07_Step(B, T, e.v, e.ev = "update") ELSE {})
   \cup (IF Has("C10") /\ e.ev \in {"instr", "update"} THEN C10_Step(B, T) ELSE {})
   \cup (IF Has("C10") /\ e.ev = "gen" THEN C10_Builtin(B, e.name, e.instrs) ELSE {})
   \cup (IF Has("C12") /\ e.ev = "gen" THEN C12_Gen(Hh, B, e.name, e.instrs) ELSE {})
